@@ -185,10 +185,71 @@ def clause3(P, res):
                 res.violated(rid, key, "retain predicate can remove an entry without notifying", where=r.loc)
 
 
+def root_local(b, op, depth=0):
+    """The local an operand is, or borrows from (through plain copies and refs)."""
+    p = mir.op_place(op)
+    if p is None or depth > 6:
+        return None
+    e = b.single_def(p[0]) if not p[1] else None
+    if e is not None and e.kind == "assign":
+        r = e.data["r"]
+        if r["k"] in ("ref", "rawptr"):
+            return root_local(b, {"c": [r["p"][0], []]}, depth + 1)
+        if r["k"] == "use" and mir.op_place(r["o"]) is not None and not b.locals[p[0]].get("name"):
+            return root_local(b, r["o"], depth + 1)
+    return p[0]
+
+
+BUFFER_NEUTRAL = {"push", "len", "is_empty", "reserve", "capacity", "with_capacity"}
+BUFFER_KILL = {"clear", "drain", "take", "truncate"}
+
+
+def clause4(P, res):
+    rid = "C16-4"
+    res.rule(rid, "a to-be-sent list is sent once: in bodies that collect notifications in a local Vec and send them afterwards, no path leads from one reading "
+                  "of the list (the iteration that feeds the channel) to another reading of it without the list being re-created, cleared or drained in between — "
+                  "otherwise entries pushed for an earlier removal are delivered again")
+    n = 0
+    for b in cl.cache_bodies(P):
+        pushes = notif_vec_pushes(b)
+        bufs = sorted({root_local(b, e.args[0]) for e in pushes} - {None})
+        for L in bufs:
+            n += 1
+            key = f"{b.id}:{b.local_name(L)}"
+            reads, kills = [], [e.pos for e in b.defs.get(L, [])]
+            for e in b.calls():
+                if not any(root_local(b, a) == L for a in e.args):
+                    continue
+                if e.method in BUFFER_KILL:
+                    kills.append(e.pos)
+                elif e.method not in BUFFER_NEUTRAL:
+                    reads.append(e)
+            if not reads:
+                res.violated(rid, key, "notifications are pushed onto this list but it is never read", where=pushes[0].loc)
+                continue
+            again = None
+            for r in reads:
+                reach = b.pos_reach_set(r.pos, removed=frozenset(kills))
+                hit = [x for x in reads if x.pos in reach]
+                if hit:
+                    again = (r, hit[0])
+                    break
+            if again:
+                res.violated(rid, key, f"the list read at {again[0].loc} ({again[0].method}) can be read again at {again[1].loc} without being re-created or cleared in between: "
+                             "notifications collected for an earlier removal are sent a second time", where=again[0].loc,
+                             witness=[f"push {p.loc}" for p in pushes] + [f"read {r.loc} {r.method}" for r in reads])
+            else:
+                res.holds(rid, key, f"{len(reads)} reading(s) of the list, each separated from the next by a fresh list ({len(kills)} re-creation/clear site(s))",
+                          where=reads[0].loc, witness=[f"push {p.loc}" for p in pushes] + [f"read {r.loc} {r.method}" for r in reads])
+    if n < 1:
+        res.violated(rid, "notification-lists", "expected >= 1 to-be-sent notification list (admission eviction in the janitor), found none")
+
+
 def run(P, ctx):
     res = Result("C16")
     res.extra["explanation"] = "Shapes of listener notification sites in fibre_cache: tied to a successful removal, right reason, exactly one per removal."
     clause1(P, res)
     clause2(P, res)
     clause3(P, res)
+    clause4(P, res)
     return res
